@@ -144,6 +144,8 @@ pub enum Probe {
     IndexOp,
     FromArray,
     TryReserveGiant,
+    ExtendByRef,
+    RawInsertOtherKey,
     _Count,
 }
 pub const NPROBE: usize = Probe::_Count as usize;
@@ -228,6 +230,8 @@ pub const PROBE_NAMES: [&str; NPROBE] = [
     "index_op",
     "from_array",
     "try_reserve_giant",
+    "extend_by_ref",
+    "raw_insert_other_key",
 ];
 
 #[derive(Clone, Debug)]
